@@ -256,10 +256,15 @@ func (n *Namespace) doConnect(socket *serverSocket) error {
 	socket.onConnect()
 	c.admitMu.Unlock()
 
-	go func() {
+	// The connection handlers are the first in the queue of the socket: its events are handled
+	// after them. The client may send events as soon as it receives the CONNECT packet, and the
+	// handlers of these events are attached by the connection handlers. On a goroutine of
+	// their own, the connection handlers could run after such an event was already handled
+	// (without any handler, that is dropped).
+	socket.packetRunner.add(func() {
 		n.server.anyConnectionHandlers.forEach(func(handler *ServerAnyConnectionFunc) { (*handler)(n.name, socket) }, false)
 		n.connectionHandlers.forEach(func(handler *NamespaceConnectionFunc) { (*handler)(socket) }, false)
-	}()
+	})
 	return nil
 }
 
